@@ -22,11 +22,14 @@ def rule_jsonpath(ctx):
         t = conds[0][0]
         sides = [t.left, t.comparators[0]]
         const = [x for x in sides if isinstance(x, ast.Constant)]
-        var = [x for x in sides if isinstance(x, ast.Name)]
-        if len(const) == 1 and const[0].value == 'application/json' and len(var) == 1:
-            vd = d.get(var[0].id, [])
-            ok = len(vd) == 1 and 'Content-Type' in norm(vd[0][1]) and '.headers' in norm(vd[0][1])
-            why = f'`{var[0].id}` is not the Content-Type header of the response'
+        other = [x for x in sides if not isinstance(x, ast.Constant)]
+        if len(const) == 1 and const[0].value == 'application/json' and len(other) == 1:
+            src = other[0]
+            if isinstance(src, ast.Name):
+                vd = d.get(src.id, [])
+                src = vd[0][1] if len(vd) == 1 else src
+            ok = 'Content-Type' in norm(src) and '.headers' in norm(src)
+            why = f'`{norm(other[0])}` is not the Content-Type header of the response'
     ctx.check(ok, 'C18.JSONPATH', ctx.key(f, r, 'every JSON reply is processed'),
               'a reply is handed to the processor exactly when its Content-Type is application/json, whatever the HTTP status',
               why + ': a genuine RPC error (JSON body with a non-200 status) is treated as a refusal and retried for ever instead of '
